@@ -505,16 +505,16 @@ Lemma items_nonneg es : 0 <= items es.
 Proof. unfold items. induction es as [|e es IH]; cbn [fold_right]; [lia|]. pose proof (len_nonneg (snd e)). lia. Qed.
 
 Definition sentry_good (e : sid * list (bytes * bytes)) : Prop :=
-  0 <= fst (fst e) < two64 /\ 0 <= snd (fst e) < two64 /\ 1 <= len (snd e) /\ pairs_ok (snd e) /\ NoDup (map fst (snd e)).
+  0 <= fst (fst e) < two64 /\ 0 <= snd (fst e) < two64 /\ pairs_ok (snd e) /\ NoDup (map fst (snd e)).
 
-Lemma load_stream_eq fuel ds i k idx remaining s :
-  load_stream fuel ds i k idx remaining s =
+Lemma load_stream_eq fuel ds i k idx remaining pre s :
+  load_stream fuel ds i k idx remaining pre s =
   match fuel with
   | O => SErr s ds
   | S f =>
     if remaining <=? idx then SOk tt s ds else
-    if remaining <=? idx + 2 then SOk tt s ds else
-    match read_string s with
+    if remaining <? idx + 2 then SOk tt s ds else
+    match (match pre with Some id => (Some id, s) | None => read_string s end) with
     | (None, s1) => SErr s1 ds
     | (Some id_str, s1) =>
       match read_string s1 with
@@ -530,7 +530,7 @@ Lemma load_stream_eq fuel ds i k idx remaining s :
                        | Some id => api_xadd ds i k id (h_ins_all [] fv)
                        | None => ds
                        end in
-            load_stream f ds' i k (idx2 + 2 * fc) remaining s3
+            load_stream f ds' i k (idx2 + 2 * fc) remaining None s3
         end
       end
     end
@@ -552,20 +552,25 @@ Proof.
   remember (length (write_string b)) as y. remember (length (flat_map write_pair l)) as z. lia.
 Qed.
 
-Lemma load_stream_step f ds i k idx remaining e r v :
+(** the bytes of an entry after its ID string *)
+Definition sentry_tail (e : sid * list (bytes * bytes)) : bytes :=
+  write_string (print_nat (len (snd e))) ++ flat_map write_pair (snd e).
+Lemma write_sentry_tail e : write_sentry e = write_string (sid_text (fst e)) ++ sentry_tail e.
+Proof. reflexivity. Qed.
+
+Lemma load_stream_step_pre f ds i k idx remaining e r v :
   sentry_good e -> 0 <= idx -> remaining < two32 ->
   idx + 2 + 2 * len (snd e) <= remaining ->
-  exists v', load_stream (S f) ds i k idx remaining (mkrd (write_sentry e ++ r) v)
-           = load_stream f (api_xadd ds i k (fst e) (snd e)) i k (idx + 2 + 2 * len (snd e)) remaining (mkrd r v').
+  exists v', load_stream (S f) ds i k idx remaining (Some (sid_text (fst e))) (mkrd (sentry_tail e ++ r) v)
+           = load_stream f (api_xadd ds i k (fst e) (snd e)) i k (idx + 2 + 2 * len (snd e)) remaining None (mkrd r v').
 Proof.
-  intros (Hi1 & Hi2 & Hn & Hp & Hnd) Hidx Hrem Hfit.
+  intros (Hi1 & Hi2 & Hp & Hnd) Hidx Hrem Hfit.
+  pose proof (len_nonneg (snd e)) as Hl.
   rewrite load_stream_eq.
-  replace (remaining <=? idx) with false by lia. replace (remaining <=? idx + 2) with false by lia.
-  unfold write_sentry. rewrite <- !app_assoc.
-  rewrite (read_string_write _ _ v (len_sid_text (fst e))).
+  replace (remaining <=? idx) with false by lia. replace (remaining <? idx + 2) with false by lia.
+  unfold sentry_tail. rewrite <- !app_assoc.
   assert (Hfc : len (print_nat (len (snd e))) < two32) by (pose proof (len_print_nat (len (snd e))); unfold two32; lia).
   rewrite (read_string_write _ _ _ Hfc).
-  pose proof (len_nonneg (snd e)) as Hl.
   assert (Hl32 : len (snd e) < two32) by lia.
   rewrite parse_usize_print_nat by (unfold u64_max, two32 in *; lia).
   cbv zeta.
@@ -581,6 +586,20 @@ Proof.
   rewrite (h_ins_all_fresh (snd e) []) by exact Hnd. cbn [app].
   exists v'. reflexivity.
 Qed.
+Lemma load_stream_step f ds i k idx remaining e r v :
+  sentry_good e -> 0 <= idx -> remaining < two32 ->
+  idx + 2 + 2 * len (snd e) <= remaining ->
+  exists v', load_stream (S f) ds i k idx remaining None (mkrd (write_sentry e ++ r) v)
+           = load_stream f (api_xadd ds i k (fst e) (snd e)) i k (idx + 2 + 2 * len (snd e)) remaining None (mkrd r v').
+Proof.
+  intros Hg Hidx Hrem Hfit.
+  destruct (load_stream_step_pre f ds i k idx remaining e r (rs_resv v (sid_text (fst e))) Hg Hidx Hrem Hfit) as [v' E].
+  exists v'. rewrite <- E. pose proof (len_nonneg (snd e)) as Hl.
+  rewrite !load_stream_eq.
+  replace (remaining <=? idx) with false by lia. replace (remaining <? idx + 2) with false by lia.
+  rewrite write_sentry_tail, <- app_assoc.
+  rewrite (read_string_write _ _ v (len_sid_text (fst e))). reflexivity.
+Qed.
 
 Definition xadd_all (ds : list db) (i : Z) (k : bytes) (es : list (sid * list (bytes * bytes))) : list db :=
   fold_left (fun a e => api_xadd a i k (fst e) (snd e)) es ds.
@@ -588,7 +607,7 @@ Definition xadd_all (ds : list db) (i : Z) (k : bytes) (es : list (sid * list (b
 Lemma load_stream_all es : forall fuel ds i k idx remaining r v,
   (length es < fuel)%nat -> Forall sentry_good es -> 0 <= idx -> remaining < two32 ->
   remaining = idx + items es ->
-  exists v', load_stream fuel ds i k idx remaining (mkrd (flat_map write_sentry es ++ r) v)
+  exists v', load_stream fuel ds i k idx remaining None (mkrd (flat_map write_sentry es ++ r) v)
            = SOk tt (mkrd r v') (xadd_all ds i k es).
 Proof.
   induction es as [|e es IH]; intros fuel ds i k idx remaining r v Hf Hg Hidx Hrem Hit.
@@ -602,7 +621,7 @@ Proof.
     cbn [flat_map]. rewrite <- app_assoc.
     destruct (load_stream_step f ds i k idx remaining e (flat_map write_sentry es ++ r) v He Hidx Hrem ltac:(lia)) as [v1 E1].
     rewrite E1.
-    destruct He as (_ & _ & Hn & _).
+    pose proof (len_nonneg (snd e)) as Hn.
     destruct (IH f (api_xadd ds i k (fst e) (snd e)) i k (idx + 2 + 2 * len (snd e)) remaining r v1) as [v' E2];
       [cbn [length] in Hf; lia | exact Hes | lia | exact Hrem | lia |].
     exists v'. rewrite E2. reflexivity.
@@ -675,9 +694,8 @@ Proof.
     apply andb_prop in Hs. destruct Hs as [Hs _]. apply andb_prop in Hs. destruct Hs as [Hs H2].
     apply andb_prop in Hs. destruct Hs as [_ H1].
     apply andb_prop in Hf. destruct Hf as [Hf _]. unfold sentry_ok in Hf.
-    apply andb_prop in Hf. destruct Hf as [Hf Hnd]. apply andb_prop in Hf. destruct Hf as [Hlen Hp].
+    apply andb_prop in Hf. destruct Hf as [Hp Hnd].
     unfold sentry_good. repeat split; try (apply u64b_range; assumption).
-    + apply negb_true_iff, Z.eqb_neq in Hlen. pose proof (len_nonneg (snd e)). lia.
     + now apply forallb_pairs_ok.
     + now apply nodupb_NoDup.
   - cbn [sids_ok] in Hs. cbn [forallb] in Hf. apply andb_prop in Hs. destruct Hs as [_ Hs].
@@ -861,24 +879,41 @@ Lemma load_kv_list now ds i ttl s :
           match read_string s2 with
           | (None, s3) => SErr s3 ds
           | (Some first, s3) =>
-            if beq first marker then
-              match load_stream (S (length (r_in s))) ds i k 0 (n - 1) s3 with
-              | SOk _ s4 ds1 => lift_api tt s4 ds1 (api_expire_opt now ds1 i k ttl)
-              | r => r
-              end
-            else
-              match api_rpush ds i k [first] with
-              | None => SErr s3 ds
-              | Some ds1 =>
-                match read_strings_partial (S (length (r_in s))) (n - 1) [] s3 with
-                | (els, ok, s4) =>
-                  match (match els with [] => Some ds1 | _ => api_rpush ds1 i k els end) with
-                  | None => SErr s4 ds1
-                  | Some ds2 =>
-                      if ok then lift_api tt s4 ds2 (api_expire_opt now ds2 i k ttl) else SErr s4 ds2
+            let look :=
+              if beq first marker && (2 <=? n) then
+                match read_string s3 with
+                | (None, s4) => (None, s4)
+                | (Some second, s4) =>
+                    if beq second marker then (Some (false, n - 1, None), s4)
+                    else (Some (true, n, Some second), s4)
+                end
+              else (Some (beq first marker, n, None), s3) in
+            match look with
+            | (None, s4) => SErr s4 ds
+            | (Some (is_stream, n', pre), s4) =>
+              if is_stream then
+                match api_set_value now ds i k (VStream (mkstream [] (0, 0) 0)) None with
+                | None => SErr s4 ds
+                | Some ds0 =>
+                  match load_stream (S (length (r_in s))) ds0 i k 0 (n' - 1) pre s4 with
+                  | SOk _ s5 ds1 => lift_api tt s5 ds1 (api_expire_opt now ds1 i k ttl)
+                  | r => r
                   end
                 end
-              end
+              else
+                match api_rpush ds i k [first] with
+                | None => SErr s4 ds
+                | Some ds1 =>
+                  match read_strings_partial (S (length (r_in s))) (n' - 1) [] s4 with
+                  | (els, ok, s5) =>
+                    match (match els with [] => Some ds1 | _ => api_rpush ds1 i k els end) with
+                    | None => SErr s5 ds1
+                    | Some ds2 =>
+                        if ok then lift_api tt s5 ds2 (api_expire_opt now ds2 i k ttl) else SErr s5 ds2
+                    end
+                  end
+                end
+            end
           end
         else lift_api tt s2 ds (api_expire_opt now ds i k ttl)
       end
@@ -886,60 +921,125 @@ Lemma load_kv_list now ds i ttl s :
 Proof. reflexivity. Qed.
 
 Lemma load_kv_value_list now ds i d k first rest ttl r rv :
-  get_dbi ds i = Some d -> get_entry d k = None -> len k < two32 -> len (first :: rest) < two32 ->
-  strs_ok (first :: rest) -> beq first marker = false ->
+  get_dbi ds i = Some d -> get_entry d k = None -> len k < two32 -> len (first :: rest) + 1 < two32 ->
+  strs_ok (first :: rest) ->
   exists rv', load_kv now ds i T_LIST ttl
-                (mkrd (write_string k ++ write_length (len (first :: rest)) ++ flat_map write_string (first :: rest) ++ r) rv)
+                (mkrd (write_string k ++ write_length (len (first :: rest) + (if list_escaped (first :: rest) then 1 else 0))
+                       ++ (if list_escaped (first :: rest) then write_string marker else [])
+                       ++ flat_map write_string (first :: rest) ++ r) rv)
             = SOk tt (mkrd r rv') (set_dbi ds i (ins_key d k (VList (first :: rest)) (deadline now ttl))).
 Proof.
-  intros Hd Hfr Hk Hn Hs Hm. rewrite load_kv_list.
+  intros Hd Hfr Hk Hn Hs. rewrite load_kv_list.
   rewrite (read_string_write k _ rv Hk).
-  rewrite read_length_write by (pose proof (len_nonneg (first :: rest)); lia).
   pose proof (len_nonneg rest) as Hr0.
-  replace (1 <=? len (first :: rest)) with true by (rewrite len_cons; lia).
+  assert (Hl : len (first :: rest) = 1 + len rest) by apply len_cons.
   apply Forall_cons_iff in Hs. destruct Hs as [Hf Hrest].
-  cbn [flat_map]. rewrite <- app_assoc.
-  rewrite (read_string_write first _ _ Hf). rewrite Hm.
-  rewrite (api_rpush_fresh ds i d k [first] Hd Hfr).
-  rewrite len_cons_pred.
-  match goal with |- context [read_strings_partial ?fu _ _ (mkrd _ ?vv)] =>
-    destruct (read_strings_partial_ok rest fu [] r vv) as [v' E] end.
-  { cbn [r_in mkrd]. rewrite !app_length. pose proof (flat_map_strings_length rest). lia. }
-  { exact Hrest. }
-  unfold mkrd in *. rewrite E. cbn [rev app].
-  destruct rest as [|x rest'].
-  - rewrite (api_expire_opt_new now ds i d d k _ ttl Hd). eexists. reflexivity.
-  - rewrite (api_rpush_more ds i d d k [first] (x :: rest') Hd). cbn [app].
-    rewrite (api_expire_opt_new now ds i d d k _ ttl Hd). eexists. reflexivity.
+  cbn [list_escaped]. destruct (beq first marker) eqn:Hm.
+  - (* the marker is doubled in the file *)
+    apply beq_eq in Hm. subst first.
+    rewrite read_length_write by lia.
+    replace (1 <=? len (marker :: rest) + 1) with true by lia.
+    rewrite (read_string_write marker _ _ Hf). rewrite beq_refl.
+    replace (2 <=? len (marker :: rest) + 1) with true by lia. cbn [andb].
+    cbn [flat_map]. rewrite <- app_assoc.
+    rewrite (read_string_write marker _ _ Hf). rewrite beq_refl. cbv zeta.
+    rewrite (api_rpush_fresh ds i d k [marker] Hd Hfr).
+    replace (len (marker :: rest) + 1 - 1 - 1) with (len rest) by lia.
+    match goal with |- context [read_strings_partial ?fu _ _ (mkrd _ ?vv)] =>
+      destruct (read_strings_partial_ok rest fu [] r vv) as [v' E] end.
+    { cbn [r_in mkrd]. rewrite !app_length. pose proof (flat_map_strings_length rest). lia. }
+    { exact Hrest. }
+    unfold mkrd in *. rewrite E. cbn [rev app].
+    destruct rest as [|x rest'].
+    + rewrite (api_expire_opt_new now ds i d d k _ ttl Hd). eexists. reflexivity.
+    + rewrite (api_rpush_more ds i d d k [marker] (x :: rest') Hd). cbn [app].
+      rewrite (api_expire_opt_new now ds i d d k _ ttl Hd). eexists. reflexivity.
+  - rewrite Z.add_0_r. cbn [app].
+    rewrite read_length_write by lia.
+    replace (1 <=? len (first :: rest)) with true by lia.
+    cbn [flat_map]. rewrite <- app_assoc.
+    rewrite (read_string_write first _ _ Hf). rewrite Hm. cbn [andb]. cbv zeta.
+    rewrite (api_rpush_fresh ds i d k [first] Hd Hfr).
+    replace (len (first :: rest) - 1) with (len rest) by lia.
+    match goal with |- context [read_strings_partial ?fu _ _ (mkrd _ ?vv)] =>
+      destruct (read_strings_partial_ok rest fu [] r vv) as [v' E] end.
+    { cbn [r_in mkrd]. rewrite !app_length. pose proof (flat_map_strings_length rest). lia. }
+    { exact Hrest. }
+    unfold mkrd in *. rewrite E. cbn [rev app].
+    destruct rest as [|x rest'].
+    + rewrite (api_expire_opt_new now ds i d d k _ ttl Hd). eexists. reflexivity.
+    + rewrite (api_rpush_more ds i d d k [first] (x :: rest') Hd). cbn [app].
+      rewrite (api_expire_opt_new now ds i d d k _ ttl Hd). eexists. reflexivity.
 Qed.
 
 Lemma len_marker : len marker = 25.
 Proof. reflexivity. Qed.
 
+Lemma sid_text_not_marker id : 0 <= fst id < two64 -> beq (sid_text id) marker = false.
+Proof.
+  intros H. unfold sid_text.
+  destruct (print_nat_head (fst id)) as (c & r & Hc & Hdig); [unfold two64 in H; lia|].
+  rewrite Hc. cbn [app]. unfold marker. cbn [bs beq]. unfold is_digit in Hdig.
+  replace (c =? _) with false by (cbn; lia). reflexivity.
+Qed.
+Lemma api_set_value_stream now ds i d k v :
+  get_dbi ds i = Some d -> api_set_value now ds i k v None = Some (set_dbi ds i (new_key d k v)).
+Proof. intros Hd. unfold api_set_value. rewrite Hd. reflexivity. Qed.
+
 Lemma load_kv_value_stream now ds i d k s ttl r rv :
   get_dbi ds i = Some d -> get_entry d k = None -> len k < two32 ->
-  stream_items (s_entries s) < two32 -> s_entries s <> [] ->
+  stream_items (s_entries s) < two32 ->
   sids_ok (0, 0) (s_entries s) = true -> Forall sentry_good (s_entries s) ->
   exists rv', load_kv now ds i T_LIST ttl
                 (mkrd (write_string k ++ write_length (stream_items (s_entries s)) ++ write_string marker
                        ++ flat_map write_sentry (s_entries s) ++ r) rv)
             = SOk tt (mkrd r rv') (set_dbi ds i (ins_key d k (norm_value (VStream s)) (deadline now ttl))).
 Proof.
-  intros Hd Hfr Hk Hn Hne Hids Hg. rewrite load_kv_list.
+  intros Hd Hfr Hk Hn Hids Hg. rewrite load_kv_list.
   rewrite (read_string_write k _ rv Hk).
   pose proof (items_nonneg (s_entries s)) as Hi0. rewrite stream_items_items in *.
   rewrite read_length_write by lia.
   replace (1 <=? 1 + items (s_entries s)) with true by lia.
   rewrite (read_string_write marker) by (rewrite len_marker; unfold two32; lia).
-  rewrite beq_refl.
-  replace (1 + items (s_entries s) - 1) with (0 + items (s_entries s)) by lia.
-  match goal with |- context [load_stream ?fu _ _ _ _ _ (mkrd _ ?vv)] =>
-    destruct (load_stream_all (s_entries s) fu ds i k 0 (0 + items (s_entries s)) r vv) as [v' E] end.
-  { cbn [r_in mkrd]. rewrite !app_length. pose proof (flat_map_sentries_length (s_entries s)). lia. }
-  { exact Hg. } { lia. } { lia. } { reflexivity. }
-  rewrite E.
-  rewrite (xadd_all_fresh ds i d k (s_entries s) Hd Hfr Hne Hids).
-  rewrite (api_expire_opt_new now ds i d d k _ ttl Hd). eexists. reflexivity.
+  rewrite beq_refl. cbn [andb norm_value].
+  destruct (s_entries s) as [|e es] eqn:Ees.
+  - (* an emptied stream: the marker alone *)
+    unfold items. cbn [fold_right flat_map app]. replace (2 <=? 1 + 0) with false by lia. cbv zeta.
+    rewrite (api_set_value_stream now ds i d k _ Hd).
+    replace (1 + 0 - 1) with 0 by lia. rewrite load_stream_eq. cbn [Z.leb Z.compare].
+    rewrite (api_expire_opt_new now ds i d d k _ ttl Hd). eexists. reflexivity.
+  - apply Forall_cons_iff in Hg. destruct Hg as [He Hes].
+    pose proof (len_nonneg (snd e)) as Hl. pose proof (items_nonneg es) as Hi1.
+    unfold items in Hi0, Hn |- *. cbn [fold_right] in *. fold (items es) in *.
+    replace (2 <=? 1 + (2 + 2 * len (snd e) + items es)) with true by lia.
+    cbn [flat_map]. rewrite write_sentry_tail. rewrite <- !app_assoc.
+    rewrite (read_string_write _ _ _ (len_sid_text (fst e))).
+    destruct He as (Hi1' & Hi2' & Hp & Hnd).
+    rewrite (sid_text_not_marker (fst e) Hi1'). cbv zeta.
+    rewrite (api_set_value_stream now ds i d k _ Hd).
+    replace (1 + (2 + 2 * len (snd e) + items es) - 1) with (0 + 2 + 2 * len (snd e) + items es) by lia.
+    set (ds0 := set_dbi ds i (new_key d k (VStream (mkstream [] (0, 0) 0)))).
+    assert (Hd0 : get_dbi ds0 i = Some (new_key d k (VStream (mkstream [] (0, 0) 0)))) by (eapply get_set_dbi; eauto).
+    match goal with |- context [load_stream (S ?fu) _ _ _ _ ?rem _ (mkrd _ ?vv)] =>
+      destruct (load_stream_step_pre fu ds0 i k 0 rem e (flat_map write_sentry es ++ r) vv) as [v1 E1] end.
+    { exact (conj Hi1' (conj Hi2' (conj Hp Hnd))). } { lia. } { lia. } { lia. }
+    rewrite E1.
+    match goal with |- context [load_stream ?fu ?dsx _ _ ?ix ?rem None (mkrd _ ?vv)] =>
+      destruct (load_stream_all es fu dsx i k ix rem r vv) as [v' E2] end.
+    { cbn [r_in mkrd]. rewrite !app_length. pose proof (flat_map_sentries_length es) as HA.
+      pose proof (write_string_length k) as HB.
+      remember (Datatypes.length (write_string k)) as n1. remember (Datatypes.length (flat_map write_sentry es)) as n2.
+      remember (Datatypes.length es) as n3. clear - HA HB. lia. }
+    { exact Hes. } { lia. } { lia. } { lia. }
+    rewrite E2.
+    (* the adds on the (empty) stream that set_value created *)
+    cbn [sids_ok] in Hids. apply andb_prop in Hids. destruct Hids as [Hid1 Hidr].
+    apply andb_prop in Hid1. destruct Hid1 as [Hid1 _]. apply andb_prop in Hid1. destruct Hid1 as [Hid1 _].
+    apply negb_true_iff in Hid1.
+    unfold ds0. rewrite (api_xadd_more ds i d d k [] (0, 0) 0 (fst e) (snd e) Hd Hid1). cbn [app].
+    rewrite (xadd_all_more es ds i d d k [(fst e, snd e)] (fst e) (0 + 1) Hd Hidr).
+    rewrite (api_expire_opt_new now ds i d d k _ ttl Hd).
+    eexists. cbn [last_sid]. rewrite len_cons. destruct e as [eid ef]. cbn [fst snd app]. reflexivity.
 Qed.
 
 (** any well-formed value, fresh key: [write_value k v] is a plain type byte [t] followed by a
@@ -957,9 +1057,10 @@ Proof.
     rewrite <- app_assoc. exact E.
   - apply andb_prop in Hv. destruct Hv as [Hv Hm]. apply andb_prop in Hv. destruct Hv as [Hn Hs].
     unfold lt32 in Hn. apply Z.ltb_lt in Hn. apply forallb_strs_ok in Hs.
-    destruct l as [|first rest]; [discriminate|]. apply negb_true_iff in Hm.
-    destruct (load_kv_value_list now ds i d k first rest ttl r rv Hd Hfr Hk Hn Hs Hm) as [rv' E].
-    exists T_LIST, (write_string k ++ write_length (len (first :: rest)) ++ flat_map write_string (first :: rest)), rv'.
+    destruct l as [|first rest]; [discriminate|].
+    destruct (load_kv_value_list now ds i d k first rest ttl r rv Hd Hfr Hk Hn Hs) as [rv' E].
+    exists T_LIST, (write_string k ++ write_length (len (first :: rest) + (if list_escaped (first :: rest) then 1 else 0))
+                    ++ (if list_escaped (first :: rest) then write_string marker else []) ++ flat_map write_string (first :: rest)), rv'.
     split; [reflexivity|]. split; [unfold T_LIST; lia|]. rewrite <- !app_assoc. exact E.
   - apply andb_prop in Hv. destruct Hv as [Hv Hnd]. apply andb_prop in Hv. destruct Hv as [Hn Hs].
     unfold lt32 in Hn. apply Z.ltb_lt in Hn. apply forallb_strs_ok in Hs. apply nodupb_NoDup in Hnd.
@@ -978,12 +1079,10 @@ Proof.
     destruct (load_kv_value_zset now ds i d k z ttl r rv Hd Hfr Hk Hn Hs Hne' Hcan) as [rv' E].
     exists T_ZSET, (write_string k ++ write_length (len z) ++ flat_map write_zitem z), rv'.
     split; [reflexivity|]. split; [unfold T_ZSET; lia|]. rewrite <- !app_assoc. exact E.
-  - apply andb_prop in Hv. destruct Hv as [Hv Hse]. apply andb_prop in Hv. destruct Hv as [Hv Hids].
-    apply andb_prop in Hv. destruct Hv as [Hn Hne].
+  - apply andb_prop in Hv. destruct Hv as [Hv Hse]. apply andb_prop in Hv. destruct Hv as [Hn Hids].
     unfold lt32 in Hn. apply Z.ltb_lt in Hn.
-    assert (Hne' : s_entries s <> []) by (intros E; rewrite E in Hne; discriminate).
     pose proof (sentry_ok_good _ _ Hids Hse) as Hg.
-    destruct (load_kv_value_stream now ds i d k s ttl r rv Hd Hfr Hk Hn Hne' Hids Hg) as [rv' E].
+    destruct (load_kv_value_stream now ds i d k s ttl r rv Hd Hfr Hk Hn Hids Hg) as [rv' E].
     exists T_LIST, (write_string k ++ write_length (stream_items (s_entries s)) ++ write_string marker
                     ++ flat_map write_sentry (s_entries s)), rv'.
     split; [reflexivity|]. split; [unfold T_LIST; lia|]. rewrite <- !app_assoc. exact E.
@@ -1394,13 +1493,13 @@ Qed.
       arithmetic on file data, the stream field count, is checked explicitly since bcfe7be) *)
 Definition is_panic {A} (r : step A) : bool := match r with SPanic _ _ => true | _ => false end.
 
-Lemma load_stream_no_panic fuel : forall ds i k idx remaining s,
-  is_panic (load_stream fuel ds i k idx remaining s) = false.
+Lemma load_stream_no_panic fuel : forall ds i k idx remaining pre s,
+  is_panic (load_stream fuel ds i k idx remaining pre s) = false.
 Proof.
-  induction fuel as [|f IH]; intros ds i k idx remaining s; rewrite load_stream_eq; [reflexivity|].
+  induction fuel as [|f IH]; intros ds i k idx remaining pre s; rewrite load_stream_eq; [reflexivity|].
   destruct (remaining <=? idx); [reflexivity|].
-  destruct (remaining <=? idx + 2); [reflexivity|].
-  destruct (read_string s) as [[id_str|] s1]; [|reflexivity].
+  destruct (remaining <? idx + 2); [reflexivity|].
+  destruct (match pre with Some id => (Some id, s) | None => read_string s end) as [[id_str|] s1]; [|reflexivity].
   destruct (read_string s1) as [[fc_str|] s2]; [|reflexivity].
   cbv zeta.
   match goal with |- context [if ?c then SOk tt s2 ds else _] => destruct c; [reflexivity|] end.
@@ -1435,11 +1534,15 @@ Proof.
     destruct (read_length s1) as [[n|] s2]; [|reflexivity].
     destruct (1 <=? n); [|apply lift_api_no_panic].
     destruct (read_string s2) as [[first|] s3]; [|reflexivity].
-    destruct (beq first marker).
-    - pose proof (load_stream_no_panic (S (length (r_in s))) ds i k 0 (n - 1) s3) as H.
-      destruct (load_stream (S (length (r_in s))) ds i k 0 (n - 1) s3); [apply lift_api_no_panic | reflexivity | discriminate].
+    cbv zeta.
+    match goal with |- context [match ?look with pair _ _ => _ end] =>
+      destruct look as [[[[is_stream n'] pre]|] s4]; [|reflexivity] end.
+    destruct is_stream.
+    - destruct (api_set_value now ds i k (VStream (mkstream [] (0, 0) 0)) None) as [ds0|]; [|reflexivity].
+      pose proof (load_stream_no_panic (S (length (r_in s))) ds0 i k 0 (n' - 1) pre s4) as H.
+      destruct (load_stream (S (length (r_in s))) ds0 i k 0 (n' - 1) pre s4); [apply lift_api_no_panic | reflexivity | discriminate].
     - destruct (api_rpush ds i k [first]); [|reflexivity].
-      destruct (read_strings_partial (S (length (r_in s))) (n - 1) [] s3) as [[els ok] s4].
+      destruct (read_strings_partial (S (length (r_in s))) (n' - 1) [] s4) as [[els ok] s5].
       match goal with |- context [match ?x with Some ds2 => _ | None => _ end] => destruct x; [|reflexivity] end.
       destruct ok; [apply lift_api_no_panic | reflexivity]. }
   destruct (vt =? T_SET).
@@ -1587,12 +1690,15 @@ Proof.
   destruct (api_zadd ds i k x sc); [apply IH; exact G2 | exact G2].
 Qed.
 
-Lemma load_stream_ok fuel : forall ds i k idx remaining s, rd_ok L s ->
-  step_ok (load_stream fuel ds i k idx remaining s).
+Lemma load_stream_ok fuel : forall ds i k idx remaining pre s, rd_ok L s ->
+  step_ok (load_stream fuel ds i k idx remaining pre s).
 Proof.
-  induction fuel as [|f IH]; intros ds i k idx remaining s Hs; rewrite load_stream_eq; [exact Hs|].
-  destruct (remaining <=? idx); [exact Hs|]. destruct (remaining <=? idx + 2); [exact Hs|].
-  step_rs L HL s Hs; [|exact G]. step_rs L HL s0 G; [|exact G0]. cbv zeta.
+  induction fuel as [|f IH]; intros ds i k idx remaining pre s Hs; rewrite load_stream_eq; [exact Hs|].
+  destruct (remaining <=? idx); [exact Hs|]. destruct (remaining <? idx + 2); [exact Hs|].
+  assert (G : rd_ok L (snd (match pre with Some id => (Some id, s) | None => read_string s end))).
+  { destruct pre; [exact Hs | apply (read_string_ok L s HL Hs)]. }
+  destruct (match pre with Some id => (Some id, s) | None => read_string s end) as [[id_str|] s0]; cbn [snd] in G; [|exact G].
+  step_rs L HL s0 G; [|exact G0]. cbv zeta.
   match goal with |- context [if ?c then SOk tt s1 ds else _] => destruct c; [exact G0|] end.
   match goal with |- context [read_pairs ?a ?b ?c ?d] =>
     pose proof (read_pairs_ok' a b c d G0) as G1; unfold res_ok in G1;
@@ -1618,13 +1724,21 @@ Proof.
     destruct (read_length s0) as [[n|] s2]; cbn [snd] in G1; [|exact G1].
     destruct (1 <=? n); [|apply lift_api_ok; exact G1].
     step_rs L HL s2 G1; [|exact G0].
-    destruct (beq x0 marker).
-    - pose proof (load_stream_ok (S (length (r_in s))) ds i x 0 (n - 1) s1 G0) as G2.
-      destruct (load_stream (S (length (r_in s))) ds i x 0 (n - 1) s1); cbn [step_ok] in G2;
+    cbv zeta.
+    match goal with |- context [match ?look with pair _ _ => _ end] =>
+      assert (G4 : rd_ok L (snd look)) end.
+    { destruct (beq x0 marker && (2 <=? n)); [|exact G0].
+      step_rs L HL s1 G0; [|exact G2]. destruct (beq x1 marker); exact G2. }
+    match goal with |- context [match ?look with pair _ _ => _ end] =>
+      destruct look as [[[[is_stream n'] pre]|] s4]; cbn [snd] in G4; [|exact G4] end.
+    destruct is_stream.
+    - destruct (api_set_value now ds i x (VStream (mkstream [] (0, 0) 0)) None) as [ds0|]; [|exact G4].
+      pose proof (load_stream_ok (S (length (r_in s))) ds0 i x 0 (n' - 1) pre s4 G4) as G2.
+      destruct (load_stream (S (length (r_in s))) ds0 i x 0 (n' - 1) pre s4); cbn [step_ok] in G2;
         [apply lift_api_ok; exact G2 | exact G2 | exact G2].
-    - destruct (api_rpush ds i x [x0]); [|exact G0].
-      pose proof (read_strings_partial_ok' (S (length (r_in s))) (n - 1) [] s1 G0) as G2.
-      destruct (read_strings_partial (S (length (r_in s))) (n - 1) [] s1) as [[els ok] s4]. cbn [snd] in G2.
+    - destruct (api_rpush ds i x [x0]); [|exact G4].
+      pose proof (read_strings_partial_ok' (S (length (r_in s))) (n' - 1) [] s4 G4) as G2.
+      destruct (read_strings_partial (S (length (r_in s))) (n' - 1) [] s4) as [[els ok] s5]. cbn [snd] in G2.
       match goal with |- context [match ?y with Some ds2 => _ | None => _ end] => destruct y; [|exact G2] end.
       destruct ok; [apply lift_api_ok; exact G2 | exact G2]. }
   destruct (vt =? T_SET).
